@@ -4,6 +4,7 @@ import (
 	"encoding/binary"
 	"fmt"
 	"io"
+	"math/bits"
 	"net"
 	"strings"
 	"sync"
@@ -407,6 +408,13 @@ func (k *simKDC) issue(isAS bool, realm string, cname types.PrincipalName, creal
 func randKeyCrypto(et int32) []byte {
 	e, _ := crypto.GetEtype(et)
 	k, _ := types.GenerateEncryptionKey(e)
+	if et == 16 {
+		// a conformant KDC issues des3 session keys with DES parity (RFC 3961 6.3.1; MIT's client refuses others), whatever the
+		// library under test generates: every octet gets its odd parity bit here
+		for i := range k.KeyValue {
+			k.KeyValue[i] = k.KeyValue[i]&0xfe | byte(1-bits.OnesCount8(k.KeyValue[i]&0xfe)%2)
+		}
+	}
 	if len(k.KeyValue) != specKeyLen(et) {
 		// never rely on the library for the key length
 		b := make([]byte, specKeyLen(et))
